@@ -227,6 +227,75 @@ def arrow_cases(draw: st.DrawFn) -> dict:
     return {"spec": spec, "value": G.gen_dc_value(draw, top, spec)}
 
 
+_LINKS = ["dc", "opt", "list", "dict_val", "list_opt", "dict_val_opt"]
+
+
+def _link_type(kind: str, d: int) -> dict:
+    ref = {"k": "dc", "d": d}
+    if kind == "dc":
+        return ref
+    if kind == "opt":
+        return {"k": "opt", "of": ref}
+    if kind in ("list", "list_opt"):
+        return {"k": "list", "of": ref if kind == "list" else {"k": "opt", "of": ref}}
+    return {"k": "dict", "key": {"k": "str"}, "val": ref if kind == "dict_val" else {"k": "opt", "of": ref}}
+
+
+def _pattern_value(draw: st.DrawFn, kind: str, pattern: str, make: Any) -> Any:
+    """JSON value of a link field: container sizes 0-3, Optional slots filled by ``pattern`` (none / set / mixed)."""
+    def slot(i: int) -> Any:
+        if not kind.endswith("opt"):
+            return make()
+        if pattern == "none" or (pattern == "mixed" and i % 2 == 0):
+            return None
+        return make()
+
+    if kind in ("dc", "opt"):
+        return slot(0)
+    n = draw(st.sampled_from([0, 1, 2, 2, 3]))
+    if kind.startswith("list"):
+        return [slot(i) for i in range(n)]
+    return [[f"k{i}", slot(i)] for i in range(n)]
+
+
+@st.composite
+def null_pattern_cases(draw: st.DrawFn) -> dict:
+    """Outer -(link1)-> Mid -(link2)-> Inner(enum field): every combination of container kind at the two links and of
+    null pattern in the Optional slots — an all-null child column under a struct / list / map is where validity
+    bitmaps and dictionary columns go wrong, and the general grammar reaches 'map of dataclass whose optional nested
+    dataclass has an enum, every value null' too rarely to matter."""
+    spec: dict = {"enums": [G.gen_enum_spec(draw, 0)], "dcs": []}
+    inner_extra = [{"name": "n", "t": draw(st.sampled_from([{"k": "int"}, {"k": "str"}, {"k": "opt", "of": {"k": "float"}}]))}] if draw(st.booleans()) else []
+    enum_t = draw(st.sampled_from([{"k": "enum", "e": 0}, {"k": "opt", "of": {"k": "enum", "e": 0}}, {"k": "list", "of": {"k": "enum", "e": 0}}]))
+    spec["dcs"].append({"name": "D0", "fields": [{"name": "color", "t": enum_t}, *inner_extra], "kw_only": False})
+    l2 = draw(st.sampled_from(_LINKS))
+    spec["dcs"].append({"name": "D1", "fields": [{"name": "name", "t": {"k": "str"}}, {"name": "inner", "t": _link_type(l2, 0)}], "kw_only": False})
+    l1 = draw(st.sampled_from(_LINKS))
+    top_fields = [{"name": "items", "t": _link_type(l1, 1)}]
+    if draw(st.booleans()):
+        top_fields.append({"name": "label", "t": {"k": "str"}})
+    spec["dcs"].append({"name": "D2", "fields": top_fields, "kw_only": False})
+    p1, p2 = draw(st.sampled_from(["none", "set", "mixed"])), draw(st.sampled_from(["none", "none", "set", "mixed"]))
+
+    def inner() -> dict:
+        return G.gen_dc_value(draw, 0, spec)
+
+    def mid() -> dict:
+        return {"name": draw(st.sampled_from(["", "m", "n"])), "inner": _pattern_value(draw, l2, p2, inner)}
+
+    jv = {"items": _pattern_value(draw, l1, p1, mid)}
+    if len(top_fields) > 1:
+        jv["label"] = "x"
+    return {"spec": spec, "value": jv, "links": [l1, l2], "patterns": [p1, p2]}
+
+
+def run_null_pattern(case: dict) -> Outcome:
+    out = run_arrow(case)
+    out.nontrivial = True
+    out.label(f"link1={case['links'][0]}", f"link2={case['links'][1]}", f"nulls={case['patterns'][0]}/{case['patterns'][1]}")
+    return out
+
+
 def run_arrow(case: dict) -> Outcome:
     out = Outcome()
     spec, jv = case["spec"], case["value"]
@@ -643,5 +712,6 @@ def main(chk: Check) -> None:
         chk.assumptions.append("a real msgpack package was importable; the shim was not used")
     chk.case("shim_selftest", {"vectors": "spec"}, run_shim_selftest)
     chk.explore("arrow_rt", arrow_cases(), run_arrow, quick=1500, thorough=24000)
+    chk.explore("null_patterns", null_pattern_cases(), run_null_pattern, quick=600, thorough=8000)
     chk.explore("compact", compact_cases(), run_compact, quick=1200, thorough=16000)
     chk.explore("http_state", http_cases(), run_http, quick=250, thorough=3200)
